@@ -53,6 +53,17 @@ for f in sorted(glob.glob(os.path.join(repo, "tests", "src", "**", "*.cpp"), rec
                     if b: seeds.append(("%s:%s" % (base, name), b))
                 except Exception:
                     pass
+    # rows of a 2D array are padded with zeros up to the widest row: a sibling "<name>_size[]" array gives the real lengths
+    for m in re.finditer(r"([\w:]+)_size\s*\[\s*\]\s*=\s*\{([^{}]*)\}", src):
+        try:
+            sizes = [int(t.strip(), 0) for t in m.group(2).split(",") if t.strip()]
+        except ValueError:
+            continue
+        for k, n in enumerate(sizes):
+            tag = "%s:%s.%d" % (base, m.group(1), k)
+            for i, (t, b) in enumerate(seeds):
+                if t == tag and n <= len(b):
+                    seeds[i] = (t, b[:n])
 for f in sorted(glob.glob(os.path.join(verif, "corpus", "*.hex"))):
     for i, line in enumerate(open(f)):
         line = line.split("#")[0].strip()
